@@ -40,6 +40,7 @@ class M:
     unknown: bool = False  # state uncertain after a cancelled op (adopted from the probe)
     enq_t: float = 0.0
     handovers: list = field(default_factory=list)  # (t, consumer index)
+    reclaimed_live: bool = False  # Redis maintenance took it away from a live consumer (execution timeout exceeded)
     maybe: set = field(default_factory=set)  # after a cancelled op: admissible model states {"pre","post"}
     pre: Any = None
     post: Any = None
@@ -58,6 +59,7 @@ class Cons:
     held: list = field(default_factory=list)  # ids handed over and not yet disposed by the client
     pending: Any = None  # in-flight consume task (concurrent launches)
     finished_at: float | None = None
+    dead: bool = False
 
 
 class World:
@@ -79,6 +81,8 @@ class World:
         self.lat_total = 0.0
         self.facts: dict[str, Any] = {}
         self.maybe_ids: set[str] = set()
+        self.dead_clients: set[str] = set()
+        self.n_maint = 0
 
     # ------------------------------------------------------------------ helpers
     def v(self, kind: str, msg: str, **facts: Any) -> None:
@@ -279,10 +283,10 @@ class World:
         m.handovers.append((self.now, c.idx))
         tag = f"message {id_} (queue {m.queue}, topic {m.topic}) handed to consumer {c.idx} [{c.category} on {c.queue}, topics {c.topics}] at t={self.now:.6f}"
         if m.acked and not m.unknown:
-            self.v("delivered-after-ack", f"{tag} although it was acknowledged")
+            self.v("delivered-after-ack", f"{tag} although it was acknowledged", broker=self.kind, reclaimed_live=m.reclaimed_live)
         if m.holder is not None and not m.unknown:
             self.v("double-delivery", f"{tag} while consumer {m.holder} still holds it", broker=self.kind,
-                   same_client=(self.cons[m.holder].client == c.client))
+                   same_client=(self.cons[m.holder].client == c.client), reclaimed_live=m.reclaimed_live)
         if c.queue != m.queue:
             self.v("wrong-queue-delivery", f"{tag}")
         if c.topics and m.topic not in c.topics:
@@ -333,7 +337,7 @@ class World:
             m.due = vclock.secs(p.delay.next_execution_time)
 
     def _held(self, op: dict) -> tuple[Cons, M] | None:
-        holders = [c for c in self.cons if c.held]
+        holders = [c for c in self.cons if c.held and not c.dead]
         if not holders:
             return None
         c = holders[op.get("c", 0) % len(holders)]
@@ -463,7 +467,94 @@ class World:
         await asyncio.sleep(op["dt"])
 
     async def op_kill(self, op: dict, ev: dict) -> None:
-        pass  # used by C03/C14 specialisations
+        """Process death of a client (Redis / AMQP): nothing it does reaches the server any more, no cleanup runs."""
+        if self.kind == "mem":
+            ev["skipped"] = True
+            return
+        names = sorted({c.client for c in self.cons if c.started and not c.finished and c.client not in self.dead_clients})
+        if not names:
+            ev["skipped"] = True
+            return
+        name = names[op.get("c", 0) % len(names)]
+        ev["client"] = name
+        self.dead_clients.add(name)
+        self.env.kill(name)
+        for c in self.cons:
+            if c.client == name:
+                if c.pending is not None:
+                    c.pending.cancel()
+                    await asyncio.gather(c.pending, return_exceptions=True)
+                    c.pending = None
+                task = getattr(c.obj, "consume_task", None)
+                if task is not None:
+                    task.cancel()
+                    await asyncio.gather(task, return_exceptions=True)
+                c.finished = True
+                c.finished_at = self.now
+                c.dead = True
+        await self.settle()
+        if self.kind == "amqp":
+            # the server notices the lost connection and requeues its unacked deliveries
+            for c in self.cons:
+                if c.client == name:
+                    for id_ in list(c.held):
+                        self.msgs[id_].holder = None
+                        c.held.remove(id_)
+
+    async def op_maintenance(self, op: dict, ev: dict) -> None:
+        """A fresh Redis broker connects (its connect() runs maintenance)."""
+        if self.kind != "redis":
+            ev["skipped"] = True
+            return
+        self.n_maint += 1
+        now = self.now
+        srv = self.env.rserver
+        proc = dict(srv.kv.get("processing") or {})
+        expect = {}
+        for member in proc:
+            short = member.decode()
+            id_ = short.split(":")[1]
+            m = self.msgs.get(id_)
+            if m is None or m.params is None:
+                continue
+            t_take = srv.zadd_times.get(("processing", member), None)
+            if t_take is None:
+                continue
+            t_take -= vclock._EPOCH_TS
+            deadline = t_take + m.params.execution_timeout.total_seconds()
+            expect[id_] = (t_take, deadline)
+        conn = await self.conn(f"maint{self.n_maint}")
+        await self.settle()
+        await asyncio.sleep(0.01)
+        pr = self.env.probe()
+        for id_, (t_take, deadline) in expect.items():
+            m = self.msgs[id_]
+            kinds = sorted(p.kind for p in pr.get(id_, []))
+            still = kinds == ["held"]
+            if now < deadline - RES and not still and id_ in pr:
+                self.v("timeout-early-release", f"maintenance at {now:.6f} returned message {id_} taken at {t_take:.6f} although its "
+                       f"execution timeout ends at {deadline:.6f}; places {kinds}", early_by=round(deadline - now, 3))
+            if now > deadline + RES and still:
+                # still in flight: only legal if somebody took it again after maintenance
+                t2 = srv.zadd_times.get(("processing", f"{m.topic}:{id_}".encode()))
+                if t2 is None or t2 - vclock._EPOCH_TS <= t_take + 1e-9:
+                    self.v("timeout-not-released", f"maintenance at {now:.6f} left message {id_} in flight although it was taken at "
+                           f"{t_take:.6f} and its execution timeout ended at {deadline:.6f}")
+            if now > deadline - RES and not still:
+                # timed out: whoever held it has lost it.  If that was a *live* client (or a live consumer's prefetch
+                # queue) the old copy can still be handed over / acted upon: remember it for the double-delivery facts
+                holder_live = m.holder is not None and not self.cons[m.holder].dead
+                prefetch_live = m.holder is None and not any(c.dead and c.queue == m.queue for c in self.cons)
+                if holder_live or prefetch_live:
+                    m.reclaimed_live = True
+                if m.holder is not None:
+                    c = self.cons[m.holder]
+                    if id_ in c.held:
+                        c.held.remove(id_)
+                    m.holder = None
+                    self.seq += 1
+                    m.returned_at_order = self.seq
+                    ev.setdefault("released", []).append(id_)
 
     # ------------------------------------------------------------------ state check (transition monitor)
     def check_state(self, where: str) -> None:
@@ -477,7 +568,7 @@ class World:
             if m.unknown:
                 # adopt: state became uncertain through a cancelled call
                 if len(places) > 1:
-                    self.v("duplicated", f"{tag} is in several places: {[p.short() for p in places]}", broker=self.kind)
+                    self.v("duplicated", f"{tag} is in several places: {[p.short() for p in places]}", broker=self.kind, reclaimed_live=m.reclaimed_live)
                     continue
                 if not places:
                     m.acked, m.unknown = True, False
@@ -502,20 +593,20 @@ class World:
                 continue
             if m.acked:
                 if places:
-                    self.v("acked-still-present", f"{tag} was acknowledged but is in {kinds}", broker=self.kind)
+                    self.v("acked-still-present", f"{tag} was acknowledged but is in {kinds}", broker=self.kind, reclaimed_live=m.reclaimed_live)
                 continue
             if len(places) == 0:
-                self.v("lost", f"{tag} is nowhere (model: holder={m.holder}, dead={m.dead})", broker=self.kind)
+                self.v("lost", f"{tag} is nowhere (model: holder={m.holder}, dead={m.dead})", broker=self.kind, reclaimed_live=m.reclaimed_live)
                 m.acked = True  # report once
                 continue
             if len(places) > 1:
-                self.v("duplicated", f"{tag} is in several places: {[p.short() for p in places]}", broker=self.kind)
+                self.v("duplicated", f"{tag} is in several places: {[p.short() for p in places]}", broker=self.kind, reclaimed_live=m.reclaimed_live)
                 continue
             p = places[0]
             if m.holder is not None:
                 if p.kind != "held":
                     self.v("held-not-held", f"{tag} is held by consumer {m.holder} but the broker shows it {p.short()}",
-                           broker=self.kind)
+                           broker=self.kind, reclaimed_live=m.reclaimed_live)
                 elif p.holder is not None and p.holder != self.cons[m.holder].client:
                     self.v("held-by-other", f"{tag} held by client {self.cons[m.holder].client} but server shows {p.holder}")
                 continue
@@ -526,7 +617,8 @@ class World:
                 # (a consumer that just finished may still be returning it: AMQP's delayed reject takes 0.1 s)
                 recent = any(c.queue == m.queue and c.finished and c.finished_at is not None and now - c.finished_at < 0.25
                              for c in self.cons)
-                if not recent and not any(c.queue == m.queue for c in live_cons):
+                crashed = any(c.queue == m.queue and c.dead for c in self.cons)  # in flight until timeout + maintenance
+                if not recent and not crashed and not any(c.queue == m.queue for c in live_cons):
                     self.v("stranded-in-flight", f"{tag} is marked in-flight but no live consumer can hold it", broker=self.kind)
                 continue
             if p.kind == "dead":
@@ -566,17 +658,18 @@ class World:
             kinds = sorted(p.kind for p in places)
             if m.acked and not m.unknown:
                 if places:
-                    self.v("acked-still-present", f"end: message {id_} was acknowledged but is in {kinds}", broker=self.kind)
+                    self.v("acked-still-present", f"end: message {id_} was acknowledged but is in {kinds}", broker=self.kind, reclaimed_live=m.reclaimed_live)
                 continue
             if m.unknown:
                 continue
             if not places:
-                self.v("lost", f"end: message {id_} is nowhere", broker=self.kind)
+                self.v("lost", f"end: message {id_} is nowhere", broker=self.kind, reclaimed_live=m.reclaimed_live)
             elif len(places) > 1:
-                self.v("duplicated", f"end: message {id_} is in {[p.short() for p in places]}", broker=self.kind)
+                self.v("duplicated", f"end: message {id_} is in {[p.short() for p in places]}", broker=self.kind, reclaimed_live=m.reclaimed_live)
             elif kinds == ["held"] and m.holder is None:
-                self.v("stranded-in-flight", f"end: message {id_} is still marked in-flight after every consumer finished, "
-                       "and no client holds it", broker=self.kind)
+                if not any(c.queue == m.queue and c.dead for c in self.cons):
+                    self.v("stranded-in-flight", f"end: message {id_} is still marked in-flight after every consumer finished, "
+                           "and no client holds it", broker=self.kind)
             elif kinds == ["held"] and self.kind in ("mem", "amqp"):
                 self.v("held-after-finish", f"end: message {id_} handed to consumer {m.holder} is still in flight after that "
                        "consumer finished", broker=self.kind)
